@@ -34,7 +34,7 @@ impl Totals {
                 self.unitless.0 += lo;
                 self.unitless.1 += hi;
             }
-            Some(u) => match conv.find_unit(u) {
+            Some(u) => match crate::units::unit_by_exact_key(conv, u) {
                 Some(unit) => {
                     let b = |x: f64| (x + unit.difference) * unit.ratio;
                     let e = self.known.entry(unit.physical_quantity.to_string()).or_insert((0.0, 0.0));
